@@ -644,7 +644,7 @@ func genC08(c *Ctx) {
 	for _, t := range c08Fixed {
 		c.Emit("c08.doc", c08Doc(c, t, true))
 	}
-	for i := 0; i < c.N(100, 3000); i++ {
+	for i := 0; i < c.N(300, 3000); i++ {
 		text := genJournalC08(r, c.N(4, 8))
 		c.Emit("c08.doc", c08Doc(c, text, true))
 	}
